@@ -789,11 +789,12 @@ def add_timing_suites(c, samples):
         run_scenarios(c, "keep-alive-wall-clock", [sc], samples)
 
 
-def gen_nodefail(rng, clean, mounts=None):
-    """a session with a will on node 1, watchers on node 0 (and 2); the session ends cleanly or stays; then node 1 fails"""
+def gen_nodefail(rng, clean, mounts=None, wt=None):
+    """a session with a will on node 1, watchers on node 0 (and 2); the session ends cleanly or stays; then node 1 fails.
+    Will topics are byte strings split at '/', nothing else: empty levels, '.', '..' and a leading '/' mean themselves."""
     nn = rng.choice([2, 3])
     sc = Scenario(rng, nn, mounts or rng.choice([1, 2]))
-    wt = rng.choice(["w/t", "w//t", "/w", "w/t/"])
+    wt = wt or rng.choice(["w/t", "w//t", "/w", "w/t/", "../w", "w/./t", "w/../t"])
     watchers = []
     for n in [0] + ([2] if nn == 3 else []):
         for m in sc.mounts:
@@ -2003,8 +2004,35 @@ def corpus_local_log_fails_remote_accepts(rng):
     return sc
 
 
+def corpus_same_topic_resolved_before_and_after_remote_subscribe(rng):
+    """the destinations of a publish are resolved afresh every time: a topic is published (nobody elsewhere listens), a
+    subscription for it is made on ANOTHER node and arrives by gossip, and the very next thing the publisher's node
+    resolves is the same topic again — with the other node's log healthy (the subscriber must get it) and failing (no
+    acknowledgement); then the remote subscription goes away again and the same topic is published once more"""
+    sc = Scenario(rng, 2, 1)
+    p = sc.connect(node=0)
+    local = sc.connect(node=0)
+    sc.sub(local, [("t/x", 0)])
+    for q in (1, 2, 1):
+        sc.pub(p, "t/x", "%02x" % (sc.mid + 1), q)
+    remote = sc.connect(node=1)
+    sc.sub(remote, [("t/+", 1)])
+    sc.pub(p, "t/x", "a1", 1)
+    sc.pub(p, "t/x", "a2", 2)
+    sc.ops.append("logfail 1 all")
+    sc.mid += 1
+    sc.emit(f"pub {p} t/x a3 1 0 0 {sc.mid}", {local: [pubstr("t/x", "a3", 0, 0, 0)]}, "ack-despite-failed-write")
+    sc.ops.append("logfail 1 none")
+    sc.unsub(remote, ["t/+"])
+    sc.pub(p, "t/x", "a4", 1)
+    sc.sub(remote, [("t/x", 0)])
+    sc.pub(p, "t/x", "a5", 1)
+    return sc
+
+
 def corpus(rng, names):
-    table = {"displacer-gone-before-ping": corpus_displacer_gone_before_ping,
+    table = {"same-topic-before-and-after-remote-subscribe": corpus_same_topic_resolved_before_and_after_remote_subscribe,
+             "displacer-gone-before-ping": corpus_displacer_gone_before_ping,
              "returning-client-will": corpus_returning_client_will,
              "qos2-large-ids": corpus_qos2_handshakes_with_large_ids,
              "local-log-fails-remote-accepts": corpus_local_log_fails_remote_accepts,
